@@ -624,3 +624,12 @@ Proof.
     { intros acc. apply entries_with_ext; [reflexivity|]. intros k vb Hin t'. exact (IH (k, vb) Hin t'). }
     destruct t as [[| |]|]; cbn [mv]; rewrite ?E; unfold flagged, no_deep; cbn [f_append f_existing f_new]; reflexivity.
 Qed.
+
+(* one new key, whatever characters it contains, is appended with b's value *)
+Theorem new_single_key_appended fl ea k vb r :
+  f_existing fl = false -> lookup ea k = None -> ukeys vb ->
+  merge fl (Map ea) (Map [(k, vb)]) = Some r -> r = Map (ea ++ [(k, vb)]).
+Proof.
+  intros Hex Hl Hu H. rewrite merge_map_map, merge_entries_cons, Hl, Hex, (fresh_id fl Hex vb Hu), merge_entries_nil in H.
+  cbn in H. congruence.
+Qed.
